@@ -258,13 +258,15 @@ def register(generators, gm):
             # `break` otherwise) is a body shape: tied by the function translator (the helper is inlined into g_ls_parse) and
             # Proofs/LsGen.v, which proves the translation equal to the hand model's LsExtended arm.
             assigned = set(re.findall(r"(?<![\w.])(\w+)=(?!=)", re.sub(r"[=!<>]=|=>", "#", r)))
+            assigned |= set(re.findall(r"&mut(\w+)", r)) - {"parts"}      # a variable lent `&mut` to a helper counts as assigned
             consumes = bool(re.search(r"\bparts\.(?:pop_front|next)\(\)", r))
-            for callee in re.findall(r"(?<![\w.:])(\w+)\s*\(\s*&mut\s+parts\s*\)", rhs):
-                hm = re.search(r"\bfn\s+%s\s*\(\s*(\w+)\s*:\s*&mut\s+(?:std::collections::VecDeque<u8>|std::vec::IntoIter<u8>)\s*\)[^{]*\{" % re.escape(callee), rest_items)
-                if not hm:
-                    raise GenError("arm %d: %s(&mut parts): no private function of the file with that name over the queue" % (code, callee))
+            for callee in re.findall(r"(?<![\w.:])(\w+)\s*\((?=[^()]*&mut\s+parts\b)", rhs):
+                hm = re.search(r"\bfn\s+%s\s*\(([^)]*)\)[^{;]*\{" % re.escape(callee), rest_items)
+                qm = hm and re.search(r"(\w+)\s*:\s*&mut\s+(?:std::collections::VecDeque<u8>|std::vec::IntoIter<u8>)", hm.group(1))
+                if not qm:
+                    raise GenError("arm %d: %s(.. &mut parts ..): no private function of the file with that name over the queue" % (code, callee))
                 hend = fn_end(rest_items[hm.end():])
-                if hend is not None and re.search(r"\b%s\.(?:pop_front|next)\(\)" % hm.group(1), rest_items[hm.end():hm.end() + hend]):
+                if hend is not None and re.search(r"\b%s\.(?:pop_front|next)\(\)" % qm.group(1), rest_items[hm.end():hm.end() + hend]):
                     consumes = True
             if consumes and len(assigned) == 1 and assigned <= set(targets):
                 if not lookahead_tied:
